@@ -775,4 +775,277 @@ theorem translateA_refines (c : Cfg) (s : Sched) (r : RegionA) (dx dy : Int) (h 
       | emptyStatic => right; simp only [translateA, translate, erase_extents, h1, h2, if_false, Bool.false_eq_true]; rfl
       | broken => right; simp only [translateA, translate, erase_extents, h1, h2, if_false, Bool.false_eq_true]; rfl
 
+/-! ### init_from_image -/
+
+theorem runEventsFromEmpty_own (c : Cfg) (s : Sched) {rest : List Nat} :
+    ∀ (evs : List Ev) (h : Heap), Own h rest →
+      match runEventsFromEmpty c s evs h with
+      | (none, h') => Own h' rest
+      | (some none, h') => Own h' rest
+      | (some (some b), h') => Own h' (b.id :: rest)
+  | [], h, o => by simp only [runEventsFromEmpty]; exact o
+  | .sub n :: t, h, o => by simp only [runEventsFromEmpty]; exact runEventsFromEmpty_own c s t h o
+  | .add n :: t, h, o => by
+    simp only [runEventsFromEmpty]
+    by_cases hn : (n == 0) = true
+    · simp only [hn, if_true]; exact runEventsFromEmpty_own c s t h o
+    · simp only [hn, Bool.false_eq_true, if_false]
+      cases hal : allocData c s n h with
+      | mk oid h1 =>
+        cases oid with
+        | none => exact o.allocData_none hal
+        | some id =>
+          simp only
+          have hr := Own.runEvents (c := c) (s := s) t ⟨id, n, n⟩ h1 (o.allocData_some hal)
+          cases hre : runEvents c s t ⟨id, n, n⟩ h1 with
+          | mk ob h2 =>
+            rw [hre] at hr
+            cases ob with
+            | none => exact hr
+            | some b => simp only at hr ⊢; rw [hr.1]; exact hr.2
+
+theorem initFromImageA_own (c : Cfg) (s : Sched) (w : Nat) (rows : List (List Bool)) (h : Heap)
+    {rest : List Nat} (o : Own h rest) :
+    Own (initFromImageA c s w rows h).2 ((initFromImageA c s w rows h).1.ids ++ rest) := by
+  unfold initFromImageA
+  simp only
+  have hr := runEventsFromEmpty_own c s (imgRowsEv ⟨[], [], false, (w : Int) - 1, 0⟩ 0 rows) h o
+  cases hre : runEventsFromEmpty c s (imgRowsEv ⟨[], [], false, (w : Int) - 1, 0⟩ 0 rows) h with
+  | mk oo h1 =>
+    rw [hre] at hr
+    cases oo with
+    | none => simpa using hr
+    | some ob =>
+      cases ob with
+      | none => simpa using hr
+      | some b =>
+        simp only at hr ⊢
+        cases (initFromImage w rows).data with
+        | heap l => simpa [RegionA.ids] using hr
+        | single => simpa [RegionA.ids] using Own.free hr
+        | emptyStatic => simpa [RegionA.ids] using Own.free hr
+        | broken => simpa [RegionA.ids] using Own.free hr
+
+/-- every capacity demand of the list is void -/
+def NoAdd (evs : List Ev) : Prop := ∀ n, Ev.add n ∈ evs → n = 0
+
+theorem runEventsFromEmpty_static (c : Cfg) (s : Sched) :
+    ∀ (evs : List Ev) (h : Heap),
+      match runEventsFromEmpty c s evs h with
+      | (some none, _) => NoAdd evs
+      | (some (some _), _) => ¬ NoAdd evs
+      | (none, _) => True
+  | [], h => by simp [runEventsFromEmpty, NoAdd]
+  | .sub n :: t, h => by
+    have ih := runEventsFromEmpty_static c s t h
+    simp only [runEventsFromEmpty]
+    have e : NoAdd (.sub n :: t) ↔ NoAdd t := by simp [NoAdd]
+    cases hr : runEventsFromEmpty c s t h with
+    | mk oo h1 =>
+      rw [hr] at ih
+      cases oo with
+      | none => trivial
+      | some ob => cases ob <;> simp only at ih ⊢ <;> rw [e] <;> exact ih
+  | .add n :: t, h => by
+    simp only [runEventsFromEmpty]
+    by_cases hn : (n == 0) = true
+    · have hn0 : n = 0 := by simpa using hn
+      subst hn0
+      simp only [hn, if_true]
+      have ih := runEventsFromEmpty_static c s t h
+      have e : NoAdd (.add 0 :: t) ↔ NoAdd t := by
+        simp only [NoAdd, List.mem_cons]
+        constructor
+        · intro a m hm; exact a m (Or.inr hm)
+        · intro a m hm
+          rcases hm with hm | hm
+          · injection hm with hm
+          · exact a m hm
+      cases hr : runEventsFromEmpty c s t h with
+      | mk oo h1 =>
+        rw [hr] at ih
+        cases oo with
+        | none => trivial
+        | some ob => cases ob <;> simp only at ih ⊢ <;> rw [e] <;> exact ih
+    · simp only [hn, Bool.false_eq_true, if_false]
+      have hne : n ≠ 0 := by simpa using hn
+      have hna : ¬ NoAdd (.add n :: t) := fun a => hne (a n List.mem_cons_self)
+      cases hal : allocData c s n h with
+      | mk oid h1 =>
+        cases oid with
+        | none => trivial
+        | some id =>
+          simp only
+          cases hre : runEvents c s t ⟨id, n, n⟩ h1 with
+          | mk ob h2 => cases ob <;> simp only <;> first | trivial | exact hna
+
+def tot (st : ImgSt) : Nat := st.done.length + st.prev.length
+
+theorem imgRowEv_noAdd (st : ImgSt) (y : Int) (row : List Bool) :
+    NoAdd (imgRowEv st y row) ↔ rowRuns row = [] := by
+  unfold imgRowEv NoAdd
+  simp only [List.length_map]
+  cases hr : rowRuns row with
+  | nil => simp
+  | cons p t =>
+    simp only [List.length_cons, reduceCtorEq, iff_false]
+    intro a
+    have := a 1 (by simp [List.replicate_succ])
+    omega
+
+theorem tot_imgRow (st : ImgSt) (y : Int) (row : List Bool) :
+    tot st ≤ tot (imgRow st y row) ∧ (rowRuns row ≠ [] → 0 < tot (imgRow st y row)) ∧
+    (rowRuns row = [] → tot st = 0 → tot (imgRow st y row) = 0) := by
+  unfold imgRow tot
+  simp only
+  split
+  · next hs =>
+    simp only [List.length_map]
+    refine ⟨Nat.le_refl _, fun _ => ?_, fun _ h0 => h0⟩
+    simp only [Bool.and_eq_true, bne_iff_ne, ne_eq] at hs
+    omega
+  · simp only [List.length_append, List.length_reverse, List.length_map]
+    refine ⟨by omega, fun hne => ?_, fun he h0 => by rw [he]; simp only [List.length_nil]; omega⟩
+    cases hr : rowRuns row with
+    | nil => exact absurd hr hne
+    | cons p t => simp only [List.length_cons]; omega
+
+theorem noAdd_append {a b : List Ev} : NoAdd (a ++ b) ↔ NoAdd a ∧ NoAdd b := by
+  simp only [NoAdd, List.mem_append]
+  constructor
+  · intro h; exact ⟨fun n hn => h n (Or.inl hn), fun n hn => h n (Or.inr hn)⟩
+  · rintro ⟨h1, h2⟩ n (hn | hn)
+    · exact h1 n hn
+    · exact h2 n hn
+
+theorem tot_imgRows : ∀ (rows : List (List Bool)) (st : ImgSt) (y : Int),
+    tot st ≤ tot (imgRows st y rows) ∧
+    (¬ NoAdd (imgRowsEv st y rows) → 0 < tot (imgRows st y rows)) ∧
+    (NoAdd (imgRowsEv st y rows) → tot st = 0 → tot (imgRows st y rows) = 0)
+  | [], st, y => by simp [imgRows, imgRowsEv, NoAdd]
+  | r :: t, st, y => by
+    have h1 := tot_imgRow st y r
+    have ih := tot_imgRows t (imgRow st y r) (y + 1)
+    simp only [imgRows, imgRowsEv, noAdd_append, imgRowEv_noAdd]
+    refine ⟨by omega, fun hna => ?_, fun hna h0 => ih.2.2 hna.2 (h1.2.2 hna.1 h0)⟩
+    by_cases hr : rowRuns r = []
+    · exact ih.2.1 (fun x => hna ⟨hr, x⟩)
+    · have := h1.2.1 hr; omega
+
+/-- init_from_image (void): the broken region, or exactly `Region.initFromImage` -/
+theorem initFromImageA_exact (c : Cfg) (s : Sched) (w : Nat) (rows : List (List Bool)) (h : Heap) :
+    (initFromImageA c s w rows h).1 = brkA ∨ (initFromImageA c s w rows h).1.erase = initFromImage w rows := by
+  have hst := runEventsFromEmpty_static c s (imgRowsEv ⟨[], [], false, (w : Int) - 1, 0⟩ 0 rows) h
+  have ht := tot_imgRows rows ⟨[], [], false, (w : Int) - 1, 0⟩ 0
+  unfold initFromImageA
+  simp only
+  cases hre : runEventsFromEmpty c s (imgRowsEv ⟨[], [], false, (w : Int) - 1, 0⟩ 0 rows) h with
+  | mk oo h1 =>
+    rw [hre] at hst
+    cases oo with
+    | none => left; rfl
+    | some ob =>
+      right
+      cases ob with
+      | none =>
+        simp only at hst ⊢
+        have h0 := ht.2.2 hst (by simp [tot])
+        have hl : (imgRows ⟨[], [], false, (w : Int) - 1, 0⟩ 0 rows).done.reverse ++
+            (imgRows ⟨[], [], false, (w : Int) - 1, 0⟩ 0 rows).prev = [] := by
+          simp only [tot] at h0
+          have a : (imgRows ⟨[], [], false, (w : Int) - 1, 0⟩ 0 rows).done = [] := List.eq_nil_of_length_eq_zero (by omega)
+          have b : (imgRows ⟨[], [], false, (w : Int) - 1, 0⟩ 0 rows).prev = [] := List.eq_nil_of_length_eq_zero (by omega)
+          simp [a, b]
+        simp only [initFromImage, hl]
+        rfl
+      | some b =>
+        simp only at hst ⊢
+        have hpos := ht.2.1 hst
+        have hl : (imgRows ⟨[], [], false, (w : Int) - 1, 0⟩ 0 rows).done.reverse ++
+            (imgRows ⟨[], [], false, (w : Int) - 1, 0⟩ 0 rows).prev ≠ [] := by
+          intro e
+          have := congrArg List.length e
+          simp only [List.length_append, List.length_reverse, List.length_nil] at this
+          simp only [tot] at hpos
+          omega
+        have hd : (initFromImage w rows).data = .single ∨ ∃ l, (initFromImage w rows).data = .heap l := by
+          simp only [initFromImage]
+          generalize (imgRows ⟨[], [], false, (w : Int) - 1, 0⟩ 0 rows).done.reverse ++
+            (imgRows ⟨[], [], false, (w : Int) - 1, 0⟩ 0 rows).prev = l at hl
+          cases l with
+          | nil => exact absurd rfl hl
+          | cons x t =>
+            cases t with
+            | nil => left; rfl
+            | cons y t' =>
+              right
+              have : ((x :: y :: t').getLast?).isSome = true := by simp
+              cases hg : (x :: y :: t').getLast? with
+              | none => rw [hg] at this; cases this
+              | some e => exact ⟨_, rfl⟩
+        generalize initFromImage w rows = g at hd
+        obtain ⟨ge, gd⟩ := g
+        rcases hd with hd | ⟨l, hd⟩ <;> simp only at hd <;> subst hd <;> rfl
+
+/-! ### pixman-utils.c conversions -/
+
+theorem convBody_own (c : Cfg) (s : Sched) (boxes : List Box) (dst : RegionA) (tmp : Nat) (h : Heap)
+    {rest : List Nat} (o : Own h (tmp :: (dst.ids ++ rest))) :
+    Own ((initRectsA c s boxes (finiA dst h)).2.2.free tmp) ((initRectsA c s boxes (finiA dst h)).2.1.ids ++ rest) := by
+  have o1 : Own h (dst.ids ++ (tmp :: rest)) := o.of_perm (by perm_solve)
+  have o2 := initRectsA_own c s boxes _ (Own.finiA o1)
+  have o3 : Own (initRectsA c s boxes (finiA dst h)).2.2 (tmp :: ((initRectsA c s boxes (finiA dst h)).2.1.ids ++ rest)) :=
+    o2.of_perm (by perm_solve)
+  exact Own.free o3
+
+theorem region16From32A_own (s : Sched) (dst src : RegionA) (h : Heap) {rest : List Nat}
+    (o : Own h (dst.ids ++ rest)) :
+    Own (region16From32A s dst src h).2.2 ((region16From32A s dst src h).2.1.ids ++ rest) := by
+  unfold region16From32A
+  cases hm : h.malloc s with
+  | mk oid h1 =>
+    cases oid with
+    | none => exact o.malloc_none hm
+    | some tmp => exact convBody_own c16 s _ dst tmp h1 (o.malloc_some hm)
+
+theorem region32From16A_own (s : Sched) (dst src : RegionA) (h : Heap) {rest : List Nat}
+    (o : Own h (dst.ids ++ rest)) :
+    Own (region32From16A s dst src h).2.2 ((region32From16A s dst src h).2.1.ids ++ rest) := by
+  unfold region32From16A
+  split
+  · cases hm : h.malloc s with
+    | mk oid h1 =>
+      cases oid with
+      | none => exact o.malloc_none hm
+      | some tmp => exact convBody_own c32 s _ dst tmp h1 (o.malloc_some hm)
+  · exact initRectsA_own c32 s _ _ (Own.finiA o)
+
+/-- conversion 32→16: TRUE ⇒ the failure-free conversion; FALSE ⇒ the destination is broken, or —
+    when the temporary box array was refused — left exactly as it was -/
+theorem region16From32A_outcome (s : Sched) (dst src : RegionA) (h : Heap) :
+    ((region16From32A s dst src h).1 = true →
+      ((region16From32A s dst src h).2.1.erase, true) = region16FromRegion32 src.erase) ∧
+    ((region16From32A s dst src h).1 = false →
+      (region16From32A s dst src h).2.1 = brkA ∨ (region16From32A s dst src h).2.1 = dst) := by
+  unfold region16From32A region16FromRegion32
+  cases hm : h.malloc s with
+  | mk oid h1 =>
+    cases oid with
+    | none => exact ⟨fun ht => by simp at ht, fun _ => Or.inr rfl⟩
+    | some tmp => exact ⟨fun ht => initRectsA_true c16 s _ _ ht, fun hf => Or.inl (initRectsA_false hf)⟩
+
+theorem region32From16A_outcome (s : Sched) (dst src : RegionA) (h : Heap) :
+    ((region32From16A s dst src h).1 = true →
+      ((region32From16A s dst src h).2.1.erase, true) = region32FromRegion16 src.erase) ∧
+    ((region32From16A s dst src h).1 = false →
+      (region32From16A s dst src h).2.1 = brkA ∨ (region32From16A s dst src h).2.1 = dst) := by
+  unfold region32From16A region32FromRegion16
+  split
+  · cases hm : h.malloc s with
+    | mk oid h1 =>
+      cases oid with
+      | none => exact ⟨fun ht => by simp at ht, fun _ => Or.inr rfl⟩
+      | some tmp => exact ⟨fun ht => initRectsA_true c32 s _ _ ht, fun hf => Or.inl (initRectsA_false hf)⟩
+  · exact ⟨fun ht => initRectsA_true c32 s _ _ ht, fun hf => Or.inl (initRectsA_false hf)⟩
+
 end Pixman.Model.RegionAlloc
